@@ -83,14 +83,23 @@ def _cleaned_token_stub(real):
     return get_cleaned_token
 
 
-def install_stubs(ST):
+def install_stubs(ST=None):
+    """assumed contracts: re.compile (translated regex) and util.core.get_cleaned_token (XSD collapse), the latter replaced in
+    util.core itself and in every module that has already imported it by name"""
+    import sys
+    import musicxml.util.core as core
     E.EXT['re.compile'] = _re_compile
-    if not hasattr(ST, '_dv_real_gct'):
-        ST._dv_real_gct = ST.get_cleaned_token
-    ST.get_cleaned_token = _cleaned_token_stub(ST._dv_real_gct)
+    real = getattr(core, '_dv_real_gct', None) or core.get_cleaned_token
+    core._dv_real_gct = real
+    stub = getattr(core, '_dv_stub_gct', None) or _cleaned_token_stub(real)
+    core._dv_stub_gct = stub
+    core.get_cleaned_token = stub
+    for name, m in list(sys.modules.items()):
+        if name.startswith('musicxml') and m is not None and m.__dict__.get('get_cleaned_token') is real:
+            m.get_cleaned_token = stub
+    if ST is not None:
+        ST._dv_real_gct = real
 
-
-# ---------------------------------------------------------------------------------------------------------------------
 
 _WARM = None
 
@@ -461,7 +470,7 @@ def ct_class_name(tkey):
 def check_cleaned_token_lemma(bound):
     import itertools
     import musicxml.util.core as core
-    real = getattr(sys.modules['musicxml.xsd.xsdsimpletype'], '_dv_real_gct', core.get_cleaned_token)
+    real = getattr(core, '_dv_real_gct', None) or core.get_cleaned_token
     alpha = ['a', 'b', ' ', '\t', '\n', '\r']
     n = 0
     for k in range(bound + 1):
@@ -567,7 +576,7 @@ def run(tier='quick', seed=0):
     bad = instr.roundtrip_report()
     if bad:
         R.checker_errors.append(f'instrumentation round-trip failed for {bad}')
-    qt = 10000 if tier == 'quick' else 60000
+    qt = 30000 if tier == 'quick' else 120000
     gstates = ['pristine', 'warmed'] + (['warmed-reverse'] if tier == 'thorough' else [])
     tasks = [(spec, cname, g, qt) for spec, cname in spec_types().items() for g in gstates]
     ct_tasks = [(tkey, ct_class_name(tkey)) for tkey in xsdspec.ALL_CT]
